@@ -4,6 +4,8 @@ CONSTANTS
   Threads = {1, 2}
   CompilerScope = "per execution"
   ColumnMemo = "process-wide, keyed by rowid"
+  ParserScope = "per call"
+  ScanMemo = "none"
   JobSet = "memo"
 INIT Init
 NEXT Next
